@@ -12,8 +12,19 @@ RULE = ("dependencies with names/extras over the PEP 503/685 alphabet (case, run
 NAMES = ["requests", "Foo_Bar", "foo.bar-baz", "A", "x--y__z", "Zope.Interface", "my_pkg2"]
 EXTRAS = ["test", "Dev_Tools", "a.b", "x-y"]
 
+SUFFIXES = [".zip", ".whl", ".tar.gz", ".tar", ".tgz", ".tar.bz2", ".egg", ".git", ".py", ".Zip", "-1.0-py3-none-any.whl", ".toml", ".txt"]
+
+def gen_name(rng):
+    """a name over the whole PEP 508 / 503 alphabet; one in four ends like a file name (still a legal project name)"""
+    r = rng.random()
+    if r < 0.4: return rng.choice(NAMES)
+    n = "".join(rng.choice("abcxyzABZ0189-_.") for _ in range(rng.randint(1, 10)))
+    n = n.strip("-_.") or "p"
+    if r > 0.75: n += rng.choice(SUFFIXES)
+    return n
+
 def gen_dep(rng):
-    name = rng.choice(NAMES)
+    name = gen_name(rng)
     s = name
     feats = set()
     if rng.random() < 0.4:
@@ -53,8 +64,13 @@ def judge(s, F, ienvs):
     except Exception as e:  # noqa
         fr = F.one("requirement", s)
         return (f"rejected by poetry-core ({type(e).__name__}: {e}) but valid for the reference" if fr[0] == "ok" else None), None
+    return judge_object(d, F, ienvs)
+
+def judge_object(d, F, ienvs):
+    """the round trip of one dependency object, however it was obtained (parsed, or derived from another object)"""
+    from poetry.core.packages.dependency import Dependency
     if d.constraint.is_empty() or d.marker.is_empty():
-        return None, None          # C10 quantifies over satisfiable markers;         # an unsatisfiable conjunction has no PEP 508 text (text round trip is about non-empty constraints)
+        return None, None          # C10 quantifies over satisfiable markers; an unsatisfiable conjunction has no PEP 508 text
     try:
         text = d.to_pep_508()
     except Exception as e:  # noqa
@@ -75,6 +91,19 @@ def judge(s, F, ienvs):
     for e in ienvs:
         if d.marker.validate(e) != d2.marker.validate(e): return f"marker differs after the round trip (text {text!r})", d
     return None, d
+
+def derive(rng, d):
+    """objects obtained from an already rendered object by the public derivation methods (a history, not only an input)"""
+    # a URL / VCS requirement has no specifier in its PEP 508 text: only registry dependencies get another constraint
+    k = rng.choice(["with_features", "without_features"] + (["with_constraint"] if type(d).__name__ == "Dependency" else []))
+    if k == "with_features": how = [k, rng.sample(EXTRAS + ["other-extra"], rng.choice([1, 2]))]
+    elif k == "without_features": how = [k]
+    else: how = [k, rng.choice([">=1.2,<2.0", "==3.1.4", "!=1.0", "*", "~=2.2"])]
+    return how, apply_derivation(d, how)
+
+def apply_derivation(d, how):
+    str(d); repr(d); d.to_pep_508()          # rendered before anything is derived from it
+    return getattr(d, how[0])(*how[1:])
 
 def d40_matcher(known, case):
     from poetry.core.packages.dependency import Dependency
@@ -108,6 +137,10 @@ def run(tier):
         R.case(dict(requirement=s), nontrivial=bool(feats)); [R.count("has_" + f) for f in feats]
         d, dep = judge(s, F, ienvs)
         if d: R.fail(dict(requirement=s), d, d40_matcher)
+        if dep is not None and not d:
+            how, dd = derive(rng, dep); R.count("derived_objects")
+            d3, _ = judge_object(dd, F, ienvs)
+            if d3: R.fail(dict(requirement=s, derived=how), "derived object: " + d3)
         if dep is not None and rng.random() < 0.5:
             for v in variants(rng, s):
                 R.count("insensitivity_variants")
@@ -133,5 +166,9 @@ def run(tier):
     return R.finish(TRUSTED, ASSUME, RULE, "make -C coq Properties/C10.vo && coqc Properties/C10.v (Print Assumptions)")
 
 def replay(rep):
-    F = common.Ref(); d, _ = judge(rep["case"]["requirement"], F, [MI.impl_env(e) for e in MI.env_grid("thorough")]); F.close()
+    F = common.Ref(); ienvs = [MI.impl_env(e) for e in MI.env_grid("thorough")]
+    d, dep = judge(rep["case"]["requirement"], F, ienvs)
+    if not d and dep is not None and rep["case"].get("derived"):
+        d, _ = judge_object(apply_derivation(dep, rep["case"]["derived"]), F, ienvs)
+    F.close()
     print("FAILS: " + d if d else "holds"); return 1 if d else 0
